@@ -293,11 +293,13 @@ def stage(rep, tools):
         lrecs = list(ex.map(lambda j: case_length(tools, *j), jobs))
     account(recs)
     account(lrecs)
-    nrep = 0
+    nrep, shown = 0, {}
     for rec in recs + lrecs:
         if rec['problems']:
             nrep += 1
-            if nrep <= 8:
+            fam = rec['scenario'].split('/')[0] == 'length'
+            shown[fam] = shown.get(fam, 0) + 1
+            if shown[fam] <= 5:         # a few of each kind (injected failure / by length)
                 rep.finding('unlisted', {'stage': 'late-failure', 'harness': 'process (real binary under the shim)', 'scenario': rec['scenario'],
                                          'fault_plan' if rec['scenario'].split('/')[0] != 'length' else 'lengths': rec['plan'],
                                          'call': rec['call'], 'after_commit_point_at_call': rec.get('after_commit_at'), 'exit_status': rec['status'],
